@@ -161,8 +161,9 @@ def r4_solver_hooks(repo: Repo, rep):
         if p.ret is RAISE or p.ret is None:
             continue
         r = p.ret
-        ok = isinstance(r, ast.Call) and ends(attr_chain(r.func), "DataLoader") and r.args
-        size = dump(r.args[0]) if ok else ""
+        ds = (r.args[0] if r.args else next((k.value for k in r.keywords if k.arg == "dataset"), None)) if isinstance(r, ast.Call) else None
+        ok = isinstance(r, ast.Call) and ends(attr_chain(r.func), "DataLoader") and ds is not None
+        size = dump(ds) if ok else ""
         dep = [k for k in ("global_step", "current_epoch", "n_training_step", "batch_idx") if k in size]
         good = ok and size in ("torch.empty(self.trainer.max_steps)", "torch.empty(1000)") and not dep
         rep.check(R, good, fi.site(p.ret_node), fi.fq, "DataLoader(torch.empty(max_steps)) — independent of the resume position", size[:100], size[:100])
